@@ -99,10 +99,25 @@ func callsIn(fn *ssa.Function, withClosures bool) []ssa.CallInstruction {
 	if withClosures {
 		fns = fnAndClosures(fn)
 	}
-	for _, g := range fns {
+	seen := map[*ssa.Function]bool{}
+	for len(fns) > 0 {
+		g := fns[0]
+		fns = fns[1:]
+		if seen[g] {
+			continue
+		}
+		seen[g] = true
 		eachInstr(g, func(i ssa.Instruction) {
 			if c, ok := i.(ssa.CallInstruction); ok {
 				out = append(out, c)
+				// calls made by a transparent helper count as calls of its caller (see transparent.go)
+				if h := newHelperCallee(c); h != nil {
+					if withClosures {
+						fns = append(fns, fnAndClosures(h)...)
+					} else {
+						fns = append(fns, h)
+					}
+				}
 			}
 		})
 	}
@@ -192,7 +207,9 @@ func condAtom(v ssa.Value, truth bool) Atom {
 
 // factsAt returns the atoms that hold on every path reaching block b (from dominating
 // conditional edges).
-func factsAt(b *ssa.BasicBlock) []Atom {
+func factsAt(b *ssa.BasicBlock) []Atom { return factsAtDepth(b, 0) }
+
+func factsAtDepth(b *ssa.BasicBlock, depth int) []Atom {
 	var out []Atom
 	for d := b; d != nil; d = d.Idom() {
 		id := d.Idom()
@@ -216,6 +233,79 @@ func factsAt(b *ssa.BasicBlock) []Atom {
 				a := condAtom(ifi.Cond, idx == 0)
 				a.If = ifi
 				out = append(out, a)
+			}
+		}
+	}
+	// phi refinement: "phi == nil" where all incoming edges but one carry a value known to be non-nil on that edge
+	// means the remaining edge was taken: its value is nil and the facts of that edge hold
+	// (the "err = A(); if err == nil { err = B() }; if err != nil { return err }" idiom)
+	if depth < 3 {
+		n := len(out)
+		for i := 0; i < n; i++ {
+			a := out[i]
+			if a.Op != "eq" {
+				continue
+			}
+			x, y := a.X, a.Y
+			if isNilConst(x) {
+				x, y = y, x
+			}
+			ph, isPhi := x.(*ssa.Phi)
+			if !isPhi || y == nil || !isNilConst(y) {
+				continue
+			}
+			feasible := -1
+			nf := 0
+			var edgeFacts [][]Atom
+			for k, e := range ph.Edges {
+				pred := ph.Block().Preds[k]
+				fs := factsAtDepth(pred, depth+1)
+				if ifi, isIf := pred.Instrs[len(pred.Instrs)-1].(*ssa.If); isIf && pred.Succs[0] != pred.Succs[1] {
+					at := condAtom(ifi.Cond, pred.Succs[0] == ph.Block())
+					at.If = ifi
+					fs = append(fs, at)
+				}
+				edgeFacts = append(edgeFacts, fs)
+				nonNil := false
+				for _, f := range fs {
+					if f.Op != "neq" {
+						continue
+					}
+					fx, fy := f.X, f.Y
+					if isNilConst(fx) {
+						fx, fy = fy, fx
+					}
+					if fy != nil && isNilConst(fy) && (fx == e || Sym(fx) == Sym(e)) {
+						nonNil = true
+					}
+				}
+				if !nonNil {
+					feasible = k
+					nf++
+				}
+			}
+			if nf == 1 {
+				out = append(out, Atom{Op: "eq", X: ph.Edges[feasible], Y: y, If: a.If})
+				out = append(out, edgeFacts[feasible]...)
+			}
+		}
+	}
+	// after a successful call of a transparent helper, what holds at its nil-error returns holds here
+	if transpMemo != nil || curL != nil {
+		n := len(out)
+		for i := 0; i < n; i++ {
+			out = append(out, helperSuccessFacts(out[i], depth)...)
+		}
+	}
+	// inside a transparent helper the facts of its call site hold too
+	if fn := b.Parent(); fn != nil {
+		root := fn
+		for root.Parent() != nil {
+			root = root.Parent()
+		}
+		if site := transparentSite(root); site != nil && root == fn {
+			if depth < 3 {
+				out = append(out, factsAtDepth(site.Block(), depth+1)...)
 			}
 		}
 	}
@@ -358,12 +448,17 @@ func definitelyNonNilErr(v ssa.Value, blk *ssa.BasicBlock, seen map[ssa.Value]bo
 			return true // package-level error variable
 		}
 	case *ssa.Phi:
+		all := true
 		for _, e := range x.Edges {
 			if !definitelyNonNilErr(e, blk, seen) {
-				return false
+				all = false
+				break
 			}
 		}
-		return true
+		if all {
+			return true
+		}
+		// else: fall through to the dominating "phi != nil" test
 	case *ssa.Call:
 		n := calleeFull(x)
 		m := calleeMethod(x)
@@ -430,7 +525,8 @@ func mustPass(fn *ssa.Function, to ssa.Instruction, pred func(ssa.Instruction) b
 
 // mustPassFrom: every path from instruction `from` (exclusive; nil = function entry) to `to`
 // contains an instruction satisfying pred.
-func mustPassFrom(fn *ssa.Function, from, to ssa.Instruction, pred func(ssa.Instruction) bool) bool {
+func mustPassFrom(fn *ssa.Function, from, to ssa.Instruction, pred0 func(ssa.Instruction) bool) bool {
+	pred := func(in ssa.Instruction) bool { return pred0(in) || transparentPass(in, pred0, 0) }
 	blocked := map[*ssa.BasicBlock]bool{} // blocks that contain a pred instruction (whole block blocks)
 	firstPred := map[*ssa.BasicBlock]int{}
 	for _, b := range fn.Blocks {
@@ -623,9 +719,15 @@ func (s *symCtx) expr(v ssa.Value, d int) string {
 	}
 	switch x := v.(type) {
 	case *ssa.Parameter:
-		return "p:" + x.Name()
+		if a := transparentArg(x); a != nil && !s.seen[x] {
+			s.seen[x] = true
+			r := s.expr(a, d+1)
+			delete(s.seen, x)
+			return r
+		}
+		return "p:" + paramName(x)
 	case *ssa.FreeVar:
-		return "fv:" + x.Name()
+		return "fv:" + freeVarName(x)
 	case *ssa.Const:
 		if x.Value == nil {
 			return "nil"
@@ -643,6 +745,11 @@ func (s *symCtx) expr(v ssa.Value, d int) string {
 	case *ssa.Builtin:
 		return "builtin:" + x.Name()
 	case *ssa.Call:
+		if x.Call.Signature().Results().Len() == 1 {
+			if r := s.helperResult(x, 0, d); r != "" {
+				return r
+			}
+		}
 		var args []string
 		for _, a := range allArgs(x) {
 			args = append(args, s.expr(a, d+1))
@@ -653,6 +760,11 @@ func (s *symCtx) expr(v ssa.Value, d int) string {
 		}
 		return n + "(" + strings.Join(args, ", ") + ")"
 	case *ssa.Extract:
+		if c, ok := x.Tuple.(*ssa.Call); ok {
+			if r := s.helperResult(c, x.Index, d); r != "" {
+				return r
+			}
+		}
 		return s.expr(x.Tuple, d) + "#" + fmt.Sprint(x.Index)
 	case *ssa.Field:
 		return s.expr(x.X, d+1) + "." + fieldName(x.X.Type(), x.Field)
@@ -777,9 +889,21 @@ func (s *symCtx) deref(p ssa.Value, d int) string {
 	case *ssa.Global:
 		return "g:" + shortName(x.Pkg.Pkg.Path()+"."+x.Name())
 	case *ssa.FreeVar:
-		return "fv:" + x.Name()
+		if a := capturedTransparentArg(x); a != nil && !s.seen[x] {
+			s.seen[x] = true
+			r := s.expr(a, d+1)
+			delete(s.seen, x)
+			return r
+		}
+		return "fv:" + freeVarName(x)
 	case *ssa.Parameter:
-		return "*p:" + x.Name()
+		if a := transparentArg(x); a != nil && !s.seen[x] {
+			s.seen[x] = true
+			r := s.deref(a, d+1)
+			delete(s.seen, x)
+			return r
+		}
+		return "*p:" + paramName(x)
 	}
 	e := s.expr(p, d+1)
 	if strings.HasPrefix(e, "&") {
@@ -1206,3 +1330,107 @@ func blockReachesB(from, to *ssa.BasicBlock) bool {
 func osEnviron() []string { return os.Environ() }
 
 func typesPointer(t types.Type) types.Type { return types.NewPointer(t) }
+
+// transparentArg: the argument bound to parameter p of a transparent helper at its unique call site.
+func transparentArg(p *ssa.Parameter) ssa.Value {
+	fn := p.Parent()
+	if fn == nil {
+		return nil
+	}
+	site := transparentSite(fn)
+	if site == nil {
+		return nil
+	}
+	i := paramIdx(p)
+	args := site.Common().Args
+	if i < 0 || i >= len(args) {
+		return nil
+	}
+	return args[i]
+}
+
+// helperResult renders result k of a call to a transparent helper as the value(s) the helper returns.
+func (s *symCtx) helperResult(c *ssa.Call, k int, d int) string {
+	g := transparentCallee(c)
+	if g == nil || s.seen[c] {
+		return ""
+	}
+	s.seen[c] = true
+	defer delete(s.seen, c)
+	var parts []string
+	have := map[string]bool{}
+	for _, v := range helperReturns(g, k) {
+		r := s.expr(v, d+1)
+		if !have[r] {
+			have[r] = true
+			parts = append(parts, r)
+		}
+	}
+	if len(parts) == 0 {
+		return ""
+	}
+	if len(parts) == 1 {
+		return parts[0]
+	}
+	sort.Strings(parts)
+	return "phi(" + strings.Join(parts, " | ") + ")"
+}
+
+// capturedTransparentArg: fv is a closure's captured variable that holds (only) a parameter of a transparent
+// helper; the value it stands for is then the argument at the helper's call site.
+func capturedTransparentArg(fv *ssa.FreeVar) ssa.Value {
+	g := fv.Parent()
+	if g == nil || g.Parent() == nil {
+		return nil
+	}
+	P := g.Parent()
+	if transparentSite(P) == nil {
+		return nil
+	}
+	idx := -1
+	for i, f := range g.FreeVars {
+		if f == fv {
+			idx = i
+		}
+	}
+	var bound ssa.Value
+	eachInstr(P, func(i ssa.Instruction) {
+		if mc, ok := i.(*ssa.MakeClosure); ok && mc.Fn == ssa.Value(g) && idx >= 0 && idx < len(mc.Bindings) {
+			bound = mc.Bindings[idx]
+		}
+	})
+	a, ok := bound.(*ssa.Alloc)
+	if !ok {
+		return nil
+	}
+	var val ssa.Value
+	n := 0
+	for _, r := range *a.Referrers() {
+		if st, isSt := r.(*ssa.Store); isSt && st.Addr == ssa.Value(a) {
+			n++
+			val = st.Val
+		}
+	}
+	// closures may also store to the captured variable
+	for _, c := range fnAndClosures(P)[1:] {
+		for i, f := range c.FreeVars {
+			var b ssa.Value
+			eachInstr(c.Parent(), func(in ssa.Instruction) {
+				if mc, ok := in.(*ssa.MakeClosure); ok && mc.Fn == ssa.Value(c) && i < len(mc.Bindings) {
+					b = mc.Bindings[i]
+				}
+			})
+			if b == ssa.Value(a) && f.Referrers() != nil {
+				for _, r := range *f.Referrers() {
+					if st, isSt := r.(*ssa.Store); isSt && st.Addr == ssa.Value(f) {
+						n++
+					}
+				}
+			}
+		}
+	}
+	if p, isP := val.(*ssa.Parameter); isP && n == 1 {
+		return transparentArg(p)
+	}
+	return nil
+}
